@@ -145,6 +145,7 @@ def callback_loop(E, st, fid, closures, key):
             args = []
             for li in range(2, body.arg_count + 1):
                 args.append(E.mk_unknown(s1, body.locals[li]['ty'], ('cbarg', li), dict(f[3])))
+            s1.log('cb-invoke', ci)
             for kind, s2, _ in E.call_at(s1, cell, args, fid):
                 if kind == 'unwind':
                     for c2 in cells:
